@@ -99,12 +99,14 @@ CHECKS = {
    ref="DESIGN.md 4/C17"),
 
  "C07": dict(
+   added=" Velocity magnitudes 4, 4*2^12 (cell Peclet ~1e4) and 4*2^-40 as a fifth lattice dimension; thin 2-D/3-D shapes; the periodic axis rotates over the candidates.",
    engine="B-cfgsolve",
    technique="configuration lattice with deviation bound over (BC set-up, D pattern, sink, dt, +-every element of a basis of the admissible discretely solenoidal velocities); per configuration the complete solution operator is obtained from the library-assembled system and checked for sign and row sums",
    text="Because the update is linear, the maximum principle for every initial field and every Dirichlet datum is equivalent to entrywise non-negativity and row sums <= 1 of the solution operator; that operator is computed for every configuration within the deviation bound (4 BC set-ups incl. periodic and walls, 5 diffusivity patterns incl. a zero face and 10^6 contrast, sink on/off, dt over 8 decades, zero velocity and +-each unit stream function / through-flow admissible for the set-up) from the system captured during a real solvePDE call whose own answer is cross-checked; a real two-step run from a unit field confirms the bound dynamically. Exhaustive within the deviation bound.",
    note="cond*eps > 1e-4 configurations are counted as preconditions_failed; the dense inverse of the captured matrix supplies all columns at once (SuperLU's answer for a generic field is compared with it in each configuration); velocity magnitudes are O(1).",
    ref="DESIGN.md 4/C07"),
  "C08": dict(
+   added=" Periodic axes declared on both faces / the low face / the high face in permutations and shifts (the transformed problem another way); boundary values along a periodic axis are the wrapped interior.",
    engine="B-cfgsolve",
    technique="metamorphic enumeration: every transformation (6 embedding pairs x position x N_red x spacing x closure x u_red; all axis permutations; every mirror; every cyclic shift) x 4 BC kind vectors x 7 term subsets (3 limiters), both problems solved by the real library for 2 steps",
    text="Each transformation of the property is instantiated on every reduced configuration and original and transformed problems are solved with the real library; the solution on the higher-dimensional grid must be constant along the redundant axis and equal to the reduced solution including ghost layers, permuted/mirrored/shifted problems must give permuted/mirrored/shifted solutions, to 64*eps*cond. Exhaustive over the transformation and configuration alphabets.",
@@ -123,7 +125,8 @@ NOT_YET = {}
 GRIDS = (" Grid instances of the shared enumeration (fvmc/universe.py grid_specs): cells per axis 1..3 in every combination, spacing templates uniform/irregular "
          "(thorough: +geometric), radial origin 0/offset, plus every shape once through the (N, L) constructor form, shapes with 4-6 cells, the same grids in "
          "length units of 2^-30 and 2^40 (exact rescaling) and nearly equispaced faces (1e-6 relative deviations); grids with 40/133, 17x13, 7x6x5 cells are "
-         "evaluated on generic fields and all global sign patterns instead of the full basis.")
+         "evaluated on generic fields, fields varying along one axis only, Fortran-ordered / strided coefficient arrays and all combinations of one flow "
+         "direction (+, -, 0) per axis instead of the full basis.  Periodic axes are declared on the low face, the high face or both.")
 # what the fourth round of extensions added to each enumeration (appended to the level text)
 ADDED = {
  "C01": GRIDS,
@@ -132,25 +135,32 @@ ADDED = {
  "C11": GRIDS + " Means on values of magnitude 2^-40 / 2^60 and constants 1e-9..2.5e14; upwindMean for velocities down to the smallest subnormal.",
  "C04": GRIDS.replace("Grid instances", "Ghost-row part: grid instances") + " All sequences of three solves on ONE variable (built-in solver) over 7 systems that differ by a few ppm, "
         "by a factor, in the sources only, in sparsity, or are expressed in units with coefficients ~1e-9; the caller's term list must be left alone; +SignedTuple; "
-        "solveMatrixPDE with an external solver.",
- "C03": " Also: the same problems with lengths x 2^-30 / 2^40 and values x 2^-40 / 2^30 (a and c rescaled with them), and integer/bool-typed initial arrays.",
+        "solveMatrixPDE with an external solver; three term kinds with structural zeros (axis-only velocity / diffusivity); programs with one and the same term "
+        "object at repeated positions; byte fingerprint of every term array before/after each solve; resolve part with a BC-sharing variable refreshed explicitly.",
+ "C03": " Periodic axes declared on the low face / the high face / both (alternating on multi-axis subsets); the interior equations evaluated with the "
+        "reported boundary values must be satisfied after solvePDE, also when a second variable was constructed with the same BC object after an edit. Also: the same problems with lengths x 2^-30 / 2^40 and values x 2^-40 / 2^30 (a and c rescaled with them), and integer/bool-typed initial arrays.",
  "C09": " Menu also contains re-assignments that differ by a few ppm / 1e-9 and augmented assignment of coefficients; roots include an integer-typed initial array "
         "on a periodic domain (dtype is part of the state key); every value edit has a postcondition (the interior values read back are the ones assigned); complete "
         "tables 'initial-value form x BC style x value edit' and 'boundary-face form x coefficient edit' on all nine classes.",
  "C10": " Also: nearly equispaced template, every grid in length units 2^-30 / 2^-60 / 2^40, integer-typed face arrays and numpy-integer cell counts, (N,L) lengths 2^-30 and 3e9, "
-        "grids with up to 133 cells per axis.",
+        "grids with up to 133 cells per axis; geometry re-read after in-place edits of location variables; every grid with grids of each other class built before and after it.",
  "C12": " Also: all three-step time loops on one solution variable in which the coefficient object alpha (scalar / ndarray / CellVariable) is kept, edited in place by 50% or "
         "by ppm, refreshed with apply_BCs, assigned, advanced by its own solvePDE or replaced between the steps (7x7 histories) x 4 dt patterns x {term list rebuilt, one list "
-        "reused}; dt and alpha given as int / numpy integer / float32 / bool.",
+        "reused, reused source vectors first}; default alpha; alpha fields varying along one axis only; dt and alpha given as int / numpy integer / float32 / bool; "
+        "the periodic axis rotates over the candidate axes and flag modes.",
  "C13": " Also: the gradient ratio given in every numeric container (int64/int32/int8/float32 arrays of rank 0-3, Python and NumPy scalars, strided / reversed / transposed / "
         "Fortran-ordered / read-only views); the argument must not be written to.",
  "C14": " Also: operands whose values coincide exactly with the scalar operands, zeros of both signs, the smallest subnormal, integer-typed ndarrays; results must be numpy's "
-        "including the sign of zeros; FaceVariable constructor forms (scalar, list, tuple, ndarray, integer).",
+        "including the sign of zeros; FaceVariable constructor forms (scalar, list, tuple, ndarray, integer); copy() of variables built with ghost cells / returned by "
+        "solveMatrixPDE / edited and not refreshed.",
  "C15": " Also: for every builder and 11 documented in-place edits of its inputs (velocity sign flip / scaling / zero / assignment through the label setters, D scaling, "
         "value edits + apply_BCs, BC edits incl. ppm): call, edit, call again == edit, call, bit for bit, and the inputs are left identical; every builder on a second mesh with "
-        "the same cell counts (other spacing, other length unit, other constructor form, other grid class) used first in the same session; the term list container is unchanged.",
+        "the same cell counts (other spacing, other length unit, other constructor form, other grid class) used first in the same session (both meshes are then "
+        "used); the term list container is unchanged; all inputs in Fortran order / as strided views / as negative-stride views give bit-identical results; "
+        "inputs whose ghost layer is given (ghost-including array, solveMatrixPDE result) and a field with exact zeros.",
  "C16": " Also: 21 kinds of non-array objects (Python and NumPy scalars, memoryview, range, ...) as each single boundary coefficient and as all three; such a face must never end "
-        "up in a solved problem.",
+        "up in a solved problem; unknown terms at every position of four list contexts (with a genuine pair, with a transient term, alone); every per-axis mixture "
+        "of N and N+2 as initial-array shape.",
  "C17": " Also six extreme unit systems (lengths down to 2^-40, values down to 2^-70, everything x 2^50) for the term sets without the TVD correction.",
  "C02": " Graded ladders are not end-symmetric (first cell wider than the last one, interior ratios vary).",
 }
@@ -169,7 +179,7 @@ def main():
             "evidence_file": f"/verif/evidence/{pid}.json",
             "replay_cmd_template": f"{PY} -m fvmc.replay {{path}}",
             "engine": c["engine"],
-            "level_claimed": {"category": "model_checking", "text": c["text"] + ADDED.get(pid, ""), "design_ref": c["ref"]},
+            "level_claimed": {"category": "model_checking", "text": c["text"] + ADDED.get(pid, "") + c.get("added", ""), "design_ref": c["ref"]},
             "level_note": c["note"],
             "technique": c["technique"],
         })
